@@ -62,11 +62,13 @@ opkinds! {
     DropH = 31, 1;         // (hi)
     FetchRoot = 32, 2;     // (hi, r)
     FetchLink = 33, 3;     // (hi, p, s)
+    PDropH = 85, 1;        // (hi): the handle is dropped while a caught panic unwinds
     StashUp = 38, 3;       // (hi, h, set): upgrade h.w, stash the result
     // ---- finalization (C07) ----
     FinQuery = 34, 1;      // (via): 0 = finish_marking, 1 = mark_debt with zero debt (only if it hands out a MarkedArena)
     FinRes = 35, 1;        // (p): resurrect p.w's target, keep nothing
     FinResStore = 36, 3;   // (p, q, s): resurrect p.w's target and store it into q.s[s] (Gc::write through Finalization)
+    FinResChild = 39, 1;   // (p): upgrade p.w's target during finalization and Gc::resurrect its strong child s[0] (a plain-white dead object)
     FinGcRes = 37, 1;      // (p): upgrade-free path: Gc::resurrect on the strong child p.w -> via GcWeak::upgrade if possible
     // ---- collector (class: 0 = debt eps, 1 = debt zero, 2 = debt huge) ----
     CycleStep = 40, 1;
@@ -124,13 +126,13 @@ impl Op {
         matches!(self.k, K::CycleStep | K::MarkStep | K::Step | K::FinMark | K::FinCycle | K::StartSweep | K::Fault)
     }
     pub fn is_fin(self) -> bool {
-        matches!(self.k, K::FinQuery | K::FinRes | K::FinResStore | K::FinGcRes | K::PFin | K::FinResLeaf)
+        matches!(self.k, K::FinQuery | K::FinRes | K::FinResStore | K::FinGcRes | K::PFin | K::FinResLeaf | K::FinResChild)
     }
     /// A mutator callback (`mutate`, `mutate_root`, `map_root`, `try_map_root`).
     pub fn is_mutator(self) -> bool {
         !self.is_collector()
             && !self.is_fin()
-            && !matches!(self.k, K::CloneH | K::DropH | K::AdjustDebt | K::SetPacing | K::DropArena | K::PresentForeign)
+            && !matches!(self.k, K::CloneH | K::DropH | K::PDropH | K::AdjustDebt | K::SetPacing | K::DropArena | K::PresentForeign)
     }
     pub fn parse(s: &str) -> Option<Op> {
         // "Name(a,b)" or "Name" or "w1:Name(a)"
